@@ -17,3 +17,6 @@ extern "C" {
 void vx_calludh(const void*, int, const void*, void*) asm("_ZNK11xercesc_4_011DOMNodeImpl20callUserDataHandlersENS_18DOMUserDataHandler16DOMOperationTypeEPKNS_7DOMNodeEPS3_");
 void vx_calludh(const void*, int, const void*, void*) {}
 }
+// DOMDocumentImpl::getMemoryManager() (only used to build exception objects; the whole DOMDocumentImpl TU except isKidOK is cut)
+extern "C" void* vx_docmm(const void*) asm("_ZNK11xercesc_4_015DOMDocumentImpl16getMemoryManagerEv");
+extern "C" void* vx_docmm(const void*) { return 0; }
